@@ -539,6 +539,46 @@ func R22() Rule {
 					}
 				}
 			}
+			// pruning of emptied directories stops strictly below the bucket directory: a removal inside a
+			// loop is guarded by `len(dir) > len(bucketDir)` (or dir != bucketDir), never by `>=` — with `>=`
+			// deleting the last object removes the bucket itself (the stores then disagree on its existence)
+			for _, f := range storeScope(P, del) {
+				for _, ci := range core.AllCalls(f) {
+					if !ci.IsFunc("os", "Remove") || !inLoop(ci.Instr.Block()) {
+						continue
+					}
+					strict, loose := false, false
+					for _, fct := range core.FactsAt(ci.Instr.Block()) {
+						l, op, r, isCmp := cmpNorm(fct)
+						if !isCmp {
+							continue
+						}
+						la, ra := lenArg(l), lenArg(r)
+						if la != nil && ra != nil {
+							// which side is the bucket directory (a content path built without an object name)?
+							lb, rb := contentPath(P, la, nil), contentPath(P, ra, nil)
+							if lb == rb {
+								continue
+							}
+							if rb { // len(dir) OP len(bucketDir)
+								strict = strict || op == token.GTR
+								loose = loose || op == token.GEQ
+							} else { // len(bucketDir) OP len(dir)
+								strict = strict || op == token.LSS
+								loose = loose || op == token.LEQ
+							}
+						}
+						if op == token.NEQ && isStringType(l.Type()) && (contentPath(P, l, nil) != contentPath(P, r, nil)) {
+							strict = true
+						}
+					}
+					if strict {
+						c.Ok("R22", "filestore.Delete/pruning-stops-below-the-bucket", ci.Instr.Pos(), true, "directory removal is guarded by a strict comparison with the bucket directory")
+					} else if loose {
+						c.Bad("R22", "filestore.Delete/pruning-stops-below-the-bucket", ci.Instr.Pos(), "the loop that prunes emptied directories may also remove the bucket directory (non-strict bound): deleting a bucket's last object deletes the bucket in the file store but not in the memory store")
+					}
+				}
+			}
 			c.Check(rmContent && rmMeta, "R22", "filestore.Delete/removes-content-and-sidecar", del.Pos(), "removes the content file and its sidecar", "filestore.Delete leaves the content file or the metadata sidecar behind: a re-created object inherits stale metadata")
 			// ReadMeta tolerates a missing sidecar
 			rm := storeMethod(P, "filestore", "ReadMeta")
